@@ -1,3 +1,8 @@
 -- Root of the proof library: helper lemmas and the per-property theorem files.
 import Vise.Lemmas.Codec
+import Vise.Lemmas.CodecSpec
+import Vise.Lemmas.Cache
+import Vise.Lemmas.CacheInv
+import Vise.Props.C09
 import Vise.Props.C14
+import Vise.Props.C15
